@@ -240,6 +240,7 @@ def run_history(h):
         return res
     res['init'] = ['ok', str(eq)]
     res['rhs0'] = eq.RHS()
+    res['opaque'] = [any(t.IsBlob for t in eq.TermList)]
     for t in h['ops']:
         a, d = make_targ(t)
         res['targs'].append(d)
@@ -249,6 +250,7 @@ def run_history(h):
         except Exception as e:  # noqa
             res['trace'].append([common.exc_class(e), str(eq)])
         res['rhs'].append(eq.RHS())
+        res['opaque'].append(any(t.IsBlob for t in eq.TermList))
     return res
 
 
@@ -477,6 +479,51 @@ def oracle_history(h, res):
     return fails, 'checked'
 
 
+def oracle_combine(h, res):
+    """like terms combine, cancelling terms vanish, an empty sum renders as zero: in an equation without
+    opaque leading expression the rendering has exactly one signed chunk per distinct term body whose
+    net coefficient is not zero ('0.0' when there is none)."""
+    import re
+    eff = effective_rhs(h)
+    net = {}
+
+    def book(t, d):
+        if d is not None:
+            if d[2]:
+                return False
+            net[d[1]] = net.get(d[1], 0) + Fraction(d[0])
+            return True
+        sign, body = read_sign(t[1])
+        if not simple_body(body):
+            return False
+        net[body.replace(' ', '')] = net.get(body.replace(' ', ''), 0) + sign
+        return True
+
+    if eff[0] == 'str':
+        if eff[1].strip() != '' and not book(['str', eff[1]], None):
+            return []
+    elif eff[0] == 'list':
+        for t, d in zip(eff[1], res['init_objs']):
+            if not book(t, d):
+                return []
+    steps = [(None, None, res['rhs0'], None, res['opaque'][0])] + [
+        (t, d, r, tr[0], op) for t, d, r, tr, op in zip(h['ops'], res['targs'], res['rhs'], res['trace'], res['opaque'][1:])]
+    for i, (t, d, rendered, exc, opaque) in enumerate(steps):
+        if opaque:
+            return []
+        if t is not None and exc is None and not book(t, d):
+            return []
+        want = sum(1 for v in net.values() if v != 0)
+        got = 0 if rendered == '0.0' and want == 0 else len(re.findall(r'[^+-]+', rendered))
+        if got != want:
+            return [{'key': 'Equation.AddTerm:like-terms-not-combined',
+                     'what': 'Equation(%r, rhs=%r) after AddTerm calls %r renders %r: %d signed chunks for %d distinct term '
+                             'bodies with non-zero net coefficient %r' % (h['lhs'], h['rhs'], [o[1] for o in h['ops'][:i]],
+                                                                          rendered, got, want, {k: str(v) for k, v in net.items()}),
+                     'replay': {'kind': 'history', 'case': h}}]
+    return []
+
+
 def oracle_term(c, res):
     """a sign in front of or inside one pair of enclosing parentheses is honoured"""
     if res[0] != 'ok' or c['blob']:
@@ -609,6 +656,8 @@ def run_item(it):
         h = it['case']
         res = run_history(h)
         fails, status = oracle_history(h, res)
+        if res['init'] is not None and res['init'][0] == 'ok':
+            fails = fails + oracle_combine(h, res)
         n_ok = sum(1 for e, _ in res['trace'] if e is None)
         texts = [r for r in res['rhs']]
         merged = n_ok >= 2 and len(set(texts)) >= 2
